@@ -25,12 +25,12 @@ CHECKS = {
              "(the payload of one signal in one block — one chunk per change, any number of changes, any deltas below 2^30 — is decoded by load_fixed_len_signal / load_reals / load_signal_strings into exactly those changes at the running time index) and "
              "C04_encoder_chunk (add_n_bit_change appends exactly such a chunk); BLOCK level: C04_block_slice (the offset table finish_block writes lets get_offset_and_length cut every signal's payload back out of the block data, for every number of signals with and without data), C04_meta_plain / C04_meta_compressed (meta word round trip), and the composition C04_single_block_load: for every block content, compression decision and list of changes, "
              "load_signal returns exactly the changes whose chunk stream the signal recorded; and C04_vcd_block_roundtrip: a fresh multi-bit signal that receives ANY sequence of VCD value tokens at non-decreasing time indices is loaded back, "
-             "after finish_block, as one entry per token at its time index (end to end through add_vcd_change, finish_signal, the offset table, the meta word and load_fixed_len_signal), and C04_vcd_block_values: each of these entries decodes to the kind and the symbols of its token; C04_multi_block_load (ANY number of blocks: the loaded signal is the concatenation of the per-block changes with the time indices shifted by the earlier blocks' table lengths, aligned to the widest kind), C04_vcd_onebit_block_roundtrip (scalar tokens, compact entries) and C04_raw_block_roundtrip: the same end-to-end statement for the pre-encoded path the GHW loader uses, "
+             "after finish_block, as one entry per token at its time index (end to end through add_vcd_change, finish_signal, the offset table, the meta word and load_fixed_len_signal), and C04_vcd_block_values: each of these entries decodes to the kind and the symbols of its token; C04_single_block_load_reals / _strings, C04_multi_block_load (ANY number of blocks: the loaded signal is the concatenation of the per-block changes with the time indices shifted by the earlier blocks' table lengths, aligned to the widest kind), C04_vcd_onebit_block_roundtrip (scalar tokens, compact entries) and C04_raw_block_roundtrip: the same end-to-end statement for the pre-encoded path the GHW loader uses, "
              "with C04_compress_is_repack (compress_template = the slicing core repack, whose symbol-level meaning is C13_minimal_repack). "
              "The executable Lean model of Encoder/SignalEncoder/Reader (Model/Store.lean) and the abstract Spec.run are compared with the real store "
              "on generated histories covering every regime of the quantifier (widths, state orders, payload sizes around 32 bytes, 65535-multiples, splits).",
         design_ref="DESIGN.md section 5 / C04",
-        note="Proved: per-value packing, per-entry layout and the per-block signal stream (unbounded). Not proved, validated by the differential run only: the encoder side across blocks (time_change rolling the block over, per-block restart of the index deltas), append, real / string signals end to end "
+        note="Proved: per-value packing, per-entry layout and the per-block signal stream (unbounded). Not proved, validated by the differential run only: the encoder side across blocks (time_change rolling the block over, per-block restart of the index deltas), append "
              "(their streams are proved), and hence the single refinement theorem Store = Spec.run. lz4_flex is not modelled (compress = id in the model; "
              "the compression decision is an arbitrary predicate). Trusted: Lean kernel, table translator vf/tables.py, harness, generators.",
     ),
